@@ -26,19 +26,20 @@ def run(ctx):
     # repeated activations that replay earlier tokens (histories)
     hist = consts(NConns=1, NSlots=1, Acts={"Create", "Activate", "Service"}, ActKinds={"anon", "user", "userenc", "x509"}, SvcKinds={"Write"},
                   ExtraToks=set(), MaxDepth=5 if q else 6)
-    for sec in (False, True):
-        ctx.model_check("replay_design_%s" % ("enc" if sec else "none"), "MCSession", dict(hist, Secure=sec, NSlots=2, NConns=2,
-                        Acts=ALL_ACTS - {"Discovery"}, MaxDepth=5 if q else 6), ["C20"], view="MView")
+    wide = dict(hist, NSlots=2, NConns=2, Acts=ALL_ACTS - {"Discovery"})
+    ctx.model_check("replay_design", "MCSession", dict(wide, MaxDepth=5 if q else 7), ["C20"], view="MView")
     ctx.model_check("dev_stale_nonce", "MCSession", dict(hist, DevStaleNonce=True), ["C20"], view="MView", expect_violation="C20")
+    # the model does not depend on the endpoint's security policy: every history runs on the policy None and on the
+    # Basic256Sha256 endpoint
+    both = lambda h, c, nm: to_cases(h, dict(c, Secure=False), nm + "_none") + to_cases(h, dict(c, Secure=True), nm + "_enc")
     gens = []
-    for sec in (False, True):
-        c = dict(hist, Secure=sec, MaxDepth=4 if q else 5)
-        h, r = ctx.gen("replay_%s" % ("enc" if sec else "none"), "GenSession", c)
-        gens.append(to_cases(take(h, 700 if q else 30000, ctx.seed), c, "replay_%s" % ("enc" if sec else "none")))
-        c = dict(hist, Secure=sec, NSlots=2, NConns=2, Acts=ALL_ACTS - {"Discovery"}, MaxDepth=10)
-        n = 200 if q else 4000
-        h, r = ctx.gen("random_%s" % ("enc" if sec else "none"), "GenSession", c, simulate="num=%d" % max(20, n // 50), workers=1)
-        gens.append(to_cases(take(h, n, ctx.seed), c, "random_%s" % ("enc" if sec else "none")))
+    c = dict(hist, MaxDepth=4 if q else 6)
+    h, r = ctx.gen("replay", "GenSession", c)
+    gens.append(both(take(h, 600 if q else 20000, ctx.seed), c, "replay"))
+    c = dict(wide, MaxDepth=10)
+    n = 200 if q else 5000
+    h, r = ctx.gen("random", "GenSession", c, simulate="num=%d" % max(20, n // 50), workers=1)
+    gens.append(both(take(h, n, ctx.seed), c, "random"))
 
     def nontrivial(c):
         # an activation with a token made for an earlier nonce
